@@ -170,3 +170,13 @@ Theorem C09_unitary_spec_creates_no_photon : forall U m K mix,
   no_photon_created (SelectX.spec_dist U m) K mix.
 Proof. exact unitary_spec_creates_no_photon. Qed.
 Print Assumptions C09_unitary_spec_creates_no_photon.
+
+(* the inputs the sampler draws from: exactly the members of the mixture holding at least F photons — with no filter,
+   all of them, the vacuum included *)
+Theorem C09_no_filter_keeps_every_input : forall mix, prefilter 0 mix = mix.
+Proof. exact prefilter_zero. Qed.
+Print Assumptions C09_no_filter_keeps_every_input.
+
+Theorem C09_input_restriction : forall F mix pg, In pg (prefilter F mix) <-> In pg mix /\ (F <= gtotal (snd pg))%nat.
+Proof. exact prefilter_spec. Qed.
+Print Assumptions C09_input_restriction.
